@@ -128,7 +128,7 @@ func init() {
 		Rule: "seeded entry sets (0..400 entries, keys of length 0..64 text/binary, values nil/\"\"/0/zero struct/populated registered struct/map/slice, expiry none/+1h/-1h, LRU/LFU counters touched) " +
 			"dumped and restored across every pairing ShardedMap<->SyncMap and ShardedMapOf[V]->ShardedMapOf[V] (V=string, struct), relayed through 1..4 instances; Walk/Read of every relay compared with the source; " +
 			"truncated streams must restore a subset without panic; distinct_nontrivial = distinct (pairing, size class, chain length, value-kind set) cells with >=3 entries",
-		Required: []string{"bulk.transfers", "failed_dumps_before", "concurrent_dumps", "roundtrips", "entries.compared", "truncations", "pair.ShardedMap->SyncMap", "pair.SyncMap->ShardedMap", "pair.SyncMap->SyncMap", "pair.ShardedMap->ShardedMap", "pair.Of[string]", "pair.Of[struct]"},
+		Required: []string{"bulk.transfers", "failed_dumps_before", "concurrent_dumps", "roundtrips", "entries.compared", "truncations", "pair.ShardedMap->SyncMap", "pair.SyncMap->ShardedMap", "pair.SyncMap->SyncMap", "pair.ShardedMap->ShardedMap", "pair.Of[string]", "pair.Of[struct]", "receivers_with_wiped_history"},
 		Assumptions: []string{"reflect.DeepEqual on the harness' value alphabet is the equality of values (alphabet avoids gob's nil-vs-empty ambiguities)"},
 	})
 }
@@ -278,6 +278,14 @@ func c13Case(b *Batch, idx int) {
 		if rng.Intn(3) == 0 {
 			dcfg.DeleteExpiredAfter = time.Millisecond // what the receiver's janitor would remove later is not Restore's business
 			dst = newBackend(dstKind, dcfg)
+		}
+		if rng.Intn(4) == 0 {
+			// the receiver has a history: it held other (expiring) entries that were wiped by DeleteAll before the Restore
+			for i := 0; i < 5+rng.Intn(60); i++ {
+				_ = dst.Write(cache.WithTTL(bg, time.Duration(1+rng.Intn(100))*time.Minute, false), []byte(fmt.Sprintf("was-here-%d", i)), "x")
+			}
+			dst.DeleteAll(bg)
+			b.R.Count("receivers_with_wiped_history", 1)
 		}
 		var buf bytes.Buffer
 		var dn int
